@@ -553,6 +553,7 @@ struct Dumper {
     O["file"] = fileOf(FD->getLocation());
     O["line"] = (int64_t)lineOf(FD->getLocation());
     O["ret"] = typeStr(FD->getReturnType());
+    O["retc"] = canonStr(FD->getReturnType());
     O["retk"] = typeKind(FD->getReturnType());
     if (FD->isTemplateInstantiation())
       O["inst"] = true;
